@@ -5,6 +5,9 @@
    buildEnv, the per-method overrides of FCGIClient.Get/Head/Options/Post).
    Definitions only; proofs are in C13_Proofs.v. *)
 Require Import V.Lib V.GoPath.
+(* the proved model of httpserver's replacer (Replace / getSubstitution) is the one of C20; it is
+   loaded, not imported: its names are used qualified (C19/C20 define their own index_of, mem, …) *)
+Require V.Gen_C20 V.C19_Model V.C20_Model.
 Open Scope string_scope.
 Open Scope list_scope.
 Open Scope N_scope.
@@ -277,6 +280,39 @@ Fixpoint sr_read_all (s : sreader) (sizes : list nat) (acc : list bytes)
   end.
 Definition sr_init (conn : bytes) : sreader := {| s_conn := conn; s_buf := []; s_stderr := [] |}.
 
+(* the same reads seen call by call: (len(p), n, err) of every Read up to the first error.
+   FCGIClient.Request consumes the reader through bufio.Reader, whose fill gives up with
+   io.ErrNoProgress after 100 consecutive reads that return (0, nil): such "empty reads" are what
+   decides whether a framing gets through, so they are part of the model's observable behaviour. *)
+Fixpoint sr_reads (s : sreader) (sizes : list nat) : res (list (nat * nat * option rerr)) :=
+  match sizes with
+  | [] => Ok []
+  | m :: r =>
+    do x <- sr_read s m;
+    let '(d, e, s') := x in
+    match e with
+    | Some _ => Ok [(m, length d, e)]
+    | None => do t <- sr_reads s' r; Ok ((m, length d, None) :: t)
+    end
+  end.
+(* Read(p) with len(p) > 0 returned (0, nil) *)
+Definition empty_read (x : nat * nat * option rerr) : bool :=
+  let '(m, n, e) := x in negb (Nat.eqb m 0) && Nat.eqb n 0 && match e with None => true | Some _ => false end.
+Definition stalls (t : list (nat * nat * option rerr)) : nat := length (filter empty_read t).
+(* longest run of consecutive empty reads (reads with len(p) = 0 are not made by bufio; they are
+   skipped) *)
+Fixpoint stall_run (t : list (nat * nat * option rerr)) (cur best : nat) : nat :=
+  match t with
+  | [] => Nat.max cur best
+  | x :: r => if empty_read x then stall_run r (S cur) best
+              else if Nat.eqb (fst (fst x)) 0 then stall_run r cur best
+              else stall_run r 0 (Nat.max cur best)
+  end.
+Definition max_stall_run (t : list (nat * nat * option rerr)) : nat := stall_run t 0 0.
+Definition BUFIO_EMPTY_READS : nat := 100.      (* bufio's maxConsecutiveEmptyReads *)
+(* no bufio.Reader on top of these reads ever reports io.ErrNoProgress *)
+Definition bufio_ok (t : list (nat * nat * option rerr)) : bool := Nat.ltb (max_stall_run t) BUFIO_EMPTY_READS.
+
 (* a responder's record as scripted by the harness: type, content, padding length (padding
    bytes are 0xAA so that leaked padding is visible) *)
 Definition enc_rec (r : N * bytes * N) : bytes :=
@@ -296,6 +332,10 @@ Fixpoint before_end (recs : list (N * bytes * N)) : list (N * bytes * N) :=
   | r :: t => if fst (fst r) =? T_END then [] else r :: before_end t
   end.
 Definition has_end (recs : list (N * bytes * N)) : bool := existsb (fun r => fst (fst r) =? T_END) recs.
+(* an output record without content: the only records on which Read returns (0, nil); a conforming
+   responder sends one, as the terminator of its stdout stream *)
+Definition empty_out (r : N * bytes * N) : bool :=
+  negb (fst (fst r) =? T_STDERR) && match snd (fst r) with [] => true | _ => false end.
 
 (* ---------- response head (Request): Status header or 200 ---------- *)
 Definition is_digit (c : N) : bool := (48 <=? c) && (c <=? 57).
@@ -452,7 +492,15 @@ End Dispatch.
 Record request := {
   q_method : bytes; q_path : bytes; q_query : bytes; q_requri : bytes; q_host : bytes;
   q_remote : bytes; q_proto : bytes; q_headers : list (bytes * list bytes);  (* canonical keys *)
-  q_prefix : bytes; q_user : bytes; q_cl : Z }.
+  q_prefix : bytes; q_user : bytes; q_cl : Z;
+  (* what the replacer of the configured env values sees beyond the fields above; the results of
+     net/http's cookie parsing, net/url's query parsing and net.SplitHostPort are inputs *)
+  q_cookies : list (bytes * bytes);       (* Request.Cookies(), in order *)
+  q_qargs : list (bytes * bytes);         (* URL.Query(): the first value of every key *)
+  q_osenv : list (bytes * bytes);         (* process environment (the names the generator uses) *)
+  q_host_hp : option (bytes * bytes);     (* net.SplitHostPort(Host) *)
+  q_remote_hp : option (bytes * bytes);   (* net.SplitHostPort(RemoteAddr) *)
+  q_tls : option (N * N) }.               (* r.TLS: (Version, CipherSuite); no client certificate *)
 Record server := { sv_name : bytes; sv_port : bytes; sv_software : bytes; sv_version : bytes }.
 
 Fixpoint last_index_rev (r : bytes) (c : N) (n : nat) : option nat :=
@@ -490,6 +538,35 @@ Definition split_at (cs : bool) (r : rule) (f : bytes) : res (bytes * bytes) :=
       do d <- slice f 0 cut; do pi <- slice_from f cut; Ok (d, pi)
   end.
 
+(* ---- TLS tables ---- *)
+Definition tbl_get (k : N) (t : list (N * bytes)) : option bytes :=
+  match find (fun kv => fst kv =? k) t with Some kv => Some (snd kv) | None => None end.
+(* fastcgi.tlsProtocolStringToMap (mod_ssl names; it has no entry for TLS 1.3) *)
+Definition SSL_PROTOCOLS : list (N * bytes) := [(769, bs "TLSv1"); (770, bs "TLSv1.1"); (771, bs "TLSv1.2")].
+(* caskettls.SupportedProtocols, by version *)
+Definition TLS_PROTOCOL_NAMES : list (N * bytes) :=
+  [(769, bs "tls1.0"); (770, bs "tls1.1"); (771, bs "tls1.2"); (772, bs "tls1.3")].
+(* caskettls.SupportedCiphersMap, by suite id (the ids are pairwise distinct, so the map's iteration
+   order does not matter) *)
+Definition TLS_CIPHER_NAMES : list (N * bytes) :=
+  [(49196, bs "ECDHE-ECDSA-AES256-GCM-SHA384"); (49200, bs "ECDHE-RSA-AES256-GCM-SHA384");
+   (49195, bs "ECDHE-ECDSA-AES128-GCM-SHA256"); (49199, bs "ECDHE-RSA-AES128-GCM-SHA256");
+   (52393, bs "ECDHE-ECDSA-WITH-CHACHA20-POLY1305"); (52392, bs "ECDHE-RSA-WITH-CHACHA20-POLY1305");
+   (49172, bs "ECDHE-RSA-AES256-CBC-SHA"); (49171, bs "ECDHE-RSA-AES128-CBC-SHA");
+   (49162, bs "ECDHE-ECDSA-AES256-CBC-SHA"); (49161, bs "ECDHE-ECDSA-AES128-CBC-SHA");
+   (53, bs "RSA-AES256-CBC-SHA"); (47, bs "RSA-AES128-CBC-SHA");
+   (49170, bs "ECDHE-RSA-3DES-EDE-CBC-SHA"); (10, bs "RSA-3DES-EDE-CBC-SHA")].
+
+(* "Some web apps rely on knowing HTTPS or not" *)
+Definition env_tls (q : request) : list (bytes * bytes) :=
+  match q_tls q with
+  | None => []
+  | Some (ver, cs) =>
+      [(bs "HTTPS", bs "on")] ++
+      match tbl_get ver SSL_PROTOCOLS with Some v => [(bs "SSL_PROTOCOL", v)] | None => [] end ++
+      match tbl_get cs TLS_CIPHER_NAMES with Some v => [(bs "SSL_CIPHER", v)] | None => [] end
+  end.
+
 Definition env_base (sv : server) (r : rule) (q : request) (docuri pathinfo : bytes) : list (bytes * bytes) :=
   let '(ip0, port) := match last_index (q_remote q) 58 with
                       | Some i => (firstn i (q_remote q), skipn (S i) (q_remote q))
@@ -509,7 +586,7 @@ Definition env_base (sv : server) (r : rule) (q : request) (docuri pathinfo : by
     (bs "REMOTE_IDENT", []);
     (bs "REMOTE_USER", q_user q);
     (bs "REQUEST_METHOD", q_method q);
-    (bs "REQUEST_SCHEME", bs "http");
+    (bs "REQUEST_SCHEME", match q_tls q with Some _ => bs "https" | None => bs "http" end);
     (bs "SERVER_NAME", sv_name sv);
     (bs "SERVER_PORT", sv_port sv);
     (bs "SERVER_PROTOCOL", q_proto q);
@@ -521,7 +598,8 @@ Definition env_base (sv : server) (r : rule) (q : request) (docuri pathinfo : by
     (bs "SCRIPT_FILENAME", fjoin (r_root r) script0);
     (bs "SCRIPT_NAME", path_join (q_prefix q) script0) ] ++
   (* PATH_TRANSLATED only when PATH_INFO is not empty *)
-  match pathinfo with [] => [] | _ => [(bs "PATH_TRANSLATED", fjoin (r_root r) pathinfo)] end.
+  match pathinfo with [] => [] | _ => [(bs "PATH_TRANSLATED", fjoin (r_root r) pathinfo)] end ++
+  env_tls q.
 
 (* "Add all HTTP headers to env variables" *)
 Definition hdr_pairs (q : request) : list (bytes * bytes) :=
@@ -542,10 +620,86 @@ Definition meth_of (q : request) : list (bytes * bytes) :=
      (bs "CONTENT_TYPE", match hdr_get (bs "Content-Type") (q_headers q) with
                          | [] => bs "application/x-www-form-urlencoded" | ct => ct end)].
 
+(* ---- "Add env variables from config (with support for placeholders in values)" ----
+   replacer := httpserver.NewReplacer(r, nil, ""); env[k] = replacer.Replace(v).
+   The replacer is C20's model (expand_env = Replace over getSubstitution); here is the request
+   environment it runs in: no response recorder, no custom placeholders (no earlier replacer in the
+   request context), and the EMPTY STRING as the empty value. *)
+Definition CFG_EMPTY : bytes := [].        (* third argument of NewReplacer in buildEnv *)
+
+(* path.Split *)
+Definition path_dir (p : bytes) : bytes :=
+  match last_index p SLASH with Some i => firstn (S i) p | None => [] end.
+Definition path_file (p : bytes) : bytes :=
+  match last_index p SLASH with Some i => skipn (S i) p | None => p end.
+
+(* the part of getSubstitution's default vocabulary that depends on the request only (rr == nil;
+   no client certificate).  [empty] is the replacer's empty value.  Vocabulary entries that are
+   not listed ({when…}, {hostname}, {request}, {request_body}, the *_escaped ones) are outside the
+   model: [cfg_judged] below keeps them out of the comparison. *)
+Definition TLS_CONN_KEYS : list bytes := map bs ["{tls_protocol}"; "{tls_cipher}"].
+Definition TLS_KEYS : list bytes :=
+  map bs ["{tls_client_escaped_cert}"; "{tls_client_fingerprint}";
+          "{tls_client_i_dn}"; "{tls_client_raw_cert}"; "{tls_client_s_dn}"; "{tls_client_serial}";
+          "{tls_client_v_end}"; "{tls_client_v_remain}"; "{tls_client_v_start}"].
+Definition REC_KEYS : list bytes := map bs ["{status}"; "{size}"; "{latency}"; "{latency_ms}"].
+Definition cfg_defaults (empty : bytes) (q : request) : list (bytes * bytes) :=
+  [ (bs "{method}", q_method q);
+    (bs "{scheme}", match q_tls q with Some _ => bs "https" | None => bs "http" end);
+    (bs "{tls_protocol}", match q_tls q with
+                          | Some vc => match tbl_get (fst vc) TLS_PROTOCOL_NAMES with Some n => n | None => bs "tls" end
+                          | None => empty end);
+    (bs "{tls_cipher}", match q_tls q with
+                        | Some vc => match tbl_get (snd vc) TLS_CIPHER_NAMES with Some n => n | None => bs "UNKNOWN" end
+                        | None => empty end);
+    (bs "{host}", q_host q);
+    (bs "{hostonly}", match q_host_hp q with Some hp => fst hp | None => q_host q end);
+    (bs "{path}", q_path q); (bs "{rewrite_path}", q_path q);
+    (bs "{query}", q_query q); (bs "{fragment}", []); (bs "{proto}", q_proto q);
+    (bs "{remote}", match q_remote_hp q with Some hp => fst hp | None => q_remote q end);
+    (bs "{port}", match q_remote_hp q with Some hp => snd hp | None => empty end);
+    (bs "{uri}", q_requri q); (bs "{rewrite_uri}", q_requri q);
+    (bs "{file}", path_file (q_path q)); (bs "{dir}", path_dir (q_path q));
+    (bs "{request_id}", []); (bs "{mitm}", bs "unknown");
+    (bs "{server_port}", match q_host_hp q with
+                         | Some hp => snd hp
+                         | None => match q_tls q with Some _ => bs "443" | None => bs "80" end
+                         end) ] ++
+  map (fun k => (k, empty)) (REC_KEYS ++ TLS_KEYS).
+
+Definition cfg_renv (empty : bytes) (q : request) : C20_Model.renv :=
+  {| C20_Model.e_custom := []; C20_Model.e_reqh := q_headers q; C20_Model.e_resph := None;
+     C20_Model.e_cookies := q_cookies q; C20_Model.e_query := q_qargs q; C20_Model.e_osenv := q_osenv q;
+     C20_Model.e_defaults := cfg_defaults empty q; C20_Model.e_host := q_host q;
+     C20_Model.e_empty := empty |}.
+
+Definition cfg_expand (q : request) (v : bytes) : res bytes :=
+  C20_Model.expand_env (cfg_renv CFG_EMPTY q) v.
+Fixpoint cfg_entries (q : request) (l : list (bytes * bytes)) : res (list (bytes * bytes)) :=
+  match l with
+  | [] => Ok []
+  | kv :: r => do o <- cfg_expand q (snd kv); do r' <- cfg_entries q r; Ok ((fst kv, o) :: r')
+  end.
+
 (* the assignments to the env map in program order (later ones overwrite earlier ones) *)
 Definition env_list (cs : bool) (sv : server) (r : rule) (q : request) (f : bytes) : res (list (bytes * bytes)) :=
   do dp <- split_at cs r f;
-  Ok (env_base sv r q (fst dp) (snd dp) ++ r_env r ++ hdr_pairs q ++ meth_of q).
+  do ce <- cfg_entries q (r_env r);
+  Ok (env_base sv r q (fst dp) (snd dp) ++ ce ++ hdr_pairs q ++ meth_of q).
+
+(* ---- executable statement for the configured entries, independent of [expand]: the documented
+   reading of the value (C20's structural tokenizer and value table) with "" as the empty value ---- *)
+Definition cfg_key_modelled (q : request) (k : bytes) : bool :=
+  negb (C20_Model.mem k V.Gen_C20.gen_c20_vocab) || C20_Model.mem k (map fst (cfg_defaults [] q)).
+Definition cfg_judged (q : request) (v : bytes) : bool :=
+  C20_Model.simple_fmt v && forallb (cfg_key_modelled q) (C20_Model.keys_of (C20_Model.spec_tokens v)).
+Definition cfg_expected (q : request) (v : bytes) : bytes :=
+  C20_Model.render (C20_Model.spec_subst (cfg_renv [] q)) (C20_Model.spec_tokens v).
+Definition cfg_entry_ok (q : request) (v : bytes) (got : option bytes) : bool :=
+  match got with
+  | None => false
+  | Some g => if cfg_judged q v then beq g (cfg_expected q v) else true
+  end.
 
 (* map semantics: the last assignment of a key wins *)
 Definition env_lookup (k : bytes) (l : list (bytes * bytes)) : option bytes :=
@@ -595,6 +749,7 @@ Inductive case :=
 | CWire (ps : list (list seg * list seg)) (hasbody : bool) (body : list seg) (wire : list seg) (panicked : bool)
 | CDemux (recs : list (N * list seg * N)) (tail : list seg) (sizes : list N)
          (obs_data : list seg) (obs_err : N) (obs_stderr : list seg)
+         (obs_reads : list N)               (* n of every Read call made *)
 | CChild (checks : list (bytes * list seg * list seg))    (* label, expected, observed *)
 | CServe (cs : bool) (sv : server) (rules : list rule) (stat_tbl open_tbl : list (bytes * bool))
          (q : request) (qbody : list seg) (rs : rscript) (obs : sobs).
@@ -617,8 +772,12 @@ Definition hdrs_ok (obs : list (bytes * list bytes)) (fields : list (bytes * byt
                      negb (match snd kv with [] => true | _ => false end)) obs' &&
   forallb (fun f => mem (canon_mime (fst f)) (map fst obs')) fields'.
 
-Definition trim_nl (s : bytes) : bytes :=
-  match rev s with 10 :: r => rev r | _ => s end.
+(* strings.TrimSuffix(s, "\n") — one pass (List.rev is quadratic, the logged text can be long) *)
+Fixpoint trim_nl (s : bytes) : bytes :=
+  match s with
+  | [] => []
+  | c :: r => match r with [] => if c =? 10 then [] else [c] | _ => c :: trim_nl r end
+  end.
 
 (* the spec of the split, on the observed variables *)
 Definition split_ok (cs : bool) (split f docuri pathinfo : bytes) : bool :=
@@ -655,10 +814,15 @@ Definition env_spec (cs : bool) (sv : server) (r : rule) (q : request) (f : byte
                        "PATH_INFO"; "QUERY_STRING"; "REMOTE_ADDR"; "REMOTE_HOST"; "REMOTE_PORT"; "REMOTE_IDENT";
                        "REMOTE_USER"; "REQUEST_METHOD"; "REQUEST_SCHEME"; "SERVER_NAME"; "SERVER_PORT";
                        "SERVER_PROTOCOL"; "SERVER_SOFTWARE"; "DOCUMENT_ROOT"; "DOCUMENT_URI"; "HTTP_HOST";
-                       "REQUEST_URI"; "SCRIPT_FILENAME"; "SCRIPT_NAME"; "PATH_TRANSLATED"])) got &&
+                       "REQUEST_URI"; "SCRIPT_FILENAME"; "SCRIPT_NAME"; "PATH_TRANSLATED"]) ||
+                     (match q_tls q with Some _ => true | None => false end &&
+                      mem (fst kv) (map bs ["HTTPS"; "SSL_PROTOCOL"; "SSL_CIPHER"]))) got &&
   (* configured env entries (last one of a name wins) unless a header or the method variables override *)
   forallb (fun kv => mem (fst kv) hn || mem (fst kv) METHOD_VARS ||
-                     opt_beq (lookup (fst kv) got) (env_lookup (fst kv) (r_env r))) (r_env r) &&
+                     match env_lookup (fst kv) (r_env r) with
+                     | Some v => cfg_entry_ok q v (lookup (fst kv) got)   (* the expected expansion, "" for empty *)
+                     | None => false
+                     end) (r_env r) &&
   (* script name / path info split at the configured split string *)
   (mem (bs "DOCUMENT_URI") (map fst (r_env r)) || mem (bs "PATH_INFO") (map fst (r_env r)) ||
    mem (bs "SCRIPT_NAME") (map fst (r_env r)) ||
@@ -685,7 +849,17 @@ Definition env_spec (cs : bool) (sv : server) (r : rule) (q : request) (f : byte
   (ov "REMOTE_HOST" || ov "REMOTE_ADDR" || beq (g "REMOTE_HOST") (g "REMOTE_ADDR")) &&
   (ov "REMOTE_USER" || beq (g "REMOTE_USER") (q_user q)) &&
   (ov "SERVER_SOFTWARE" || beq (g "SERVER_SOFTWARE") (sv_software sv ++ [SLASH] ++ sv_version sv)) &&
-  (ov "REQUEST_SCHEME" || beq (g "REQUEST_SCHEME") (bs "http")) &&
+  (ov "REQUEST_SCHEME" || beq (g "REQUEST_SCHEME") (match q_tls q with Some _ => bs "https" | None => bs "http" end)) &&
+  (* HTTPS=on exactly on TLS connections; the mod_ssl variables only there *)
+  (ov "HTTPS" || match q_tls q with Some _ => beq (g "HTTPS") (bs "on") | None => negb (has "HTTPS") end) &&
+  (ov "SSL_PROTOCOL" || match q_tls q, lookup (bs "SSL_PROTOCOL") got with
+                        | Some vc, Some v => opt_beq (Some v) (tbl_get (fst vc) SSL_PROTOCOLS)
+                        | None, Some _ => false
+                        | _, None => true end) &&
+  (ov "SSL_CIPHER" || match q_tls q, lookup (bs "SSL_CIPHER") got with
+                      | Some vc, Some v => opt_beq (Some v) (tbl_get (snd vc) TLS_CIPHER_NAMES)
+                      | None, Some _ => false
+                      | _, None => true end) &&
   (let ct := hdr_get (bs "Content-Type") (q_headers q) in
    beq ct [] || beq (g "CONTENT_TYPE") ct) &&
   (* a declared body length is announced as such *)
@@ -721,9 +895,23 @@ Definition judge_wire (ps0 : list (list seg * list seg)) (hasbody : bool) (body0
 Definition conforming (recs : list (N * bytes * N)) : bool :=
   forallb (fun r => let t := fst (fst r) in (t =? T_END) || (t =? T_STDOUT) || (t =? T_STDERR)) recs.
 
+(* the observed reads as a trace: the error, if any, belongs to the last call *)
+Fixpoint obs_trace (sizes : list N) (ns : list N) (oe : N) : list (nat * nat * option rerr) :=
+  match sizes, ns with
+  | m :: sr, n :: nr =>
+      let last := match nr with [] => true | _ => false end in
+      (N.to_nat m, N.to_nat n, if last && negb (oe =? 0) then Some REOF else None) :: obs_trace sr nr oe
+  | _, _ => []
+  end.
+Definition trace_beq (a b : list (nat * nat * option rerr)) : bool :=
+  list_beq (fun x y => Nat.eqb (fst (fst x)) (fst (fst y)) && Nat.eqb (snd (fst x)) (snd (fst y)) &&
+                       Bool.eqb (match snd x with None => true | Some _ => false end)
+                                (match snd y with None => true | Some _ => false end)) a b.
+
 Definition judge_demux (recs0 : list (N * list seg * N)) (tail0 : list seg) (sizes : list N)
-           (od0 : list seg) (oe : N) (os0 : list seg) : N :=
+           (od0 : list seg) (oe : N) (os0 : list seg) (oreads : list N) : N :=
   let recs := exp_recs recs0 in
+  let otrace := obs_trace sizes oreads oe in
   let od := expand od0 in
   let ostderr := expand os0 in
   let tail := expand tail0 in
@@ -731,6 +919,10 @@ Definition judge_demux (recs0 : list (N * list seg * N)) (tail0 : list seg) (siz
   let agree :=
     match sr_read_all (sr_init wire) (map N.to_nat sizes) [] with
     | Ok (d, e, s') => beq d od && (rerr_code e =? oe) && beq (stderr_of s') ostderr
+    | Panic => false
+    end &&
+    match sr_reads (sr_init wire) (map N.to_nat sizes) with
+    | Ok t => trace_beq t otrace
     | Panic => false
     end in
   (* spec (conforming responders): only the bytes of stdout records before EndRequest are
@@ -742,7 +934,10 @@ Definition judge_demux (recs0 : list (N * list seg * N)) (tail0 : list seg) (siz
     if conforming recs && (has_end recs || match tail with [] => true | _ => false end) then
       is_prefix od out && is_prefix ostderr err &&
       (if oe =? 1 then beq od out && beq ostderr err else true) &&
-      ((oe =? 0) || (oe =? 1))
+      ((oe =? 0) || (oe =? 1)) &&
+      (* progress: unless the responder itself sends 100 empty output records, the reader never
+         makes the 100 consecutive empty reads at which bufio (FCGIClient.Request) gives up *)
+      (Nat.leb BUFIO_EMPTY_READS (length (filter empty_out pre)) || bufio_ok otrace)
     else true in
   verdict agree spec.
 
@@ -847,7 +1042,7 @@ End Serve.
 Definition judge (c : case) : N :=
   match c with
   | CWire ps hasbody body wire panicked => judge_wire ps hasbody body wire panicked
-  | CDemux recs tail sizes od oe os => judge_demux recs tail sizes od oe os
+  | CDemux recs tail sizes od oe os ors => judge_demux recs tail sizes od oe os ors
   | CChild checks =>
       (* Go's own net/http/fcgi responder as the peer: what it understood / what the client got
          back must equal what was sent (the comparison is the spec; there is no model part) *)
